@@ -3,6 +3,8 @@ import ParryModel.C02.Model
 import ParryModel.C03.Oracle
 import ParryModel.C03.Driver
 import ParryModel.C02.Exact
+import ParryModel.C02.Epa2
+import ParryModel.C02.Epa3
 /-!
 C02 protocol handlers (closed forms).  The closed-form `details::` functions and their exact world-frame judges
 (`judgeContact` = contact validity: unit normals, `normal2 = -normal1` in world space, `dist = (p2 - p1)·n1`,
@@ -213,6 +215,194 @@ def judgeExactContact (tag : String) (sep t pred : Rat) (over : V3 Rat → Optio
     else match over c.normal1 with
       | some ov => if c.dist < 0 && -c.dist > ov + t then s!"fail depth-exceeds-overlap-along-normal1 {tag} dist={c.dist.toF} overlap={ov.toF}" else "pass"
       | none => "pass"
+
+/-! ## follow-up 4: `epa2` — the 2-D EPA run on a given start simplex -/
+
+structure Epa2Args where
+  k1 : Nat
+  a1 : Float
+  b1 : Float
+  k2 : Nat
+  a2 : Float
+  b2 : Float
+  pos12 : Iso2 Float
+  pts : List (V2 Float × V2 Float)
+
+def pEpa2 : P Epa2Args := do
+  let k1 ← pnat; let a1 ← pf; let b1 ← pf; let k2 ← pnat; let a2 ← pf; let b2 ← pf; let m ← piso2; let n ← pnat
+  let rec go : Nat → P (List (V2 Float × V2 Float))
+    | 0 => pure []
+    | k + 1 => do let o1 ← pv2; let o2 ← pv2; let r ← go k; pure ((o1, o2) :: r)
+  let pts ← go n
+  pure ⟨k1, a1, b1, k2, a2, b2, m, pts⟩
+
+/-- `g1.local_support_point(dir)`: Cuboid (`copy_sign_to`) / Ball (`origin + normalize(dir) * r`) -/
+def epaSupp1 {K} [Num K] (k : Nat) (a b : K) (d : V2 K) : V2 K :=
+  if k = 0 then cuboidLocalSupport2 ⟨a, b⟩ d else V2.zero.add ((V2.normalize d).smul a)
+/-- `g2.support_point(pos12, dir)` -/
+def epaSupp2 {K} [Num K] (k : Nat) (a b : K) (m : Iso2 K) (d : V2 K) : V2 K :=
+  if k = 0 then (cuboidSupportMap2 ⟨a, b⟩).support m d else (ballSupportMap2 a).support m d
+
+/-- exact support value `max { x·n : x in the posed shape }` (ball: `|n|` through the rational square root, 2^-40) -/
+def epaH (k : Nat) (a b : Rat) (m : Iso2 Rat) (n : V2 Rat) : Rat :=
+  if k = 0 then m.t.dot n + a * rabs ((m.rot ⟨1, 0⟩).dot n) + b * rabs ((m.rot ⟨0, 1⟩).dot n)
+  else m.t.dot n + a * rsqrt n.normSq
+/-- how far `p` is outside the posed shape (0 inside), in the max norm of the local frame / radially -/
+def epaOutside (k : Nat) (a b : Rat) (m : Iso2 Rat) (p : V2 Rat) : Rat :=
+  let l := m.invAct p
+  if k = 0 then rmax 0 (rmax (rabs l.x - a) (rabs l.y - b)) else rmax 0 (rsqrt l.normSq - a)
+
+def epa2Oracle (A : Epa2Args) (o : List String) : String :=
+  let M := qiso2 A.pos12
+  if !unitC M then "skip non-unit-rotation" else
+  let I : Iso2 Rat := ⟨1, 0, ⟨0, 0⟩⟩
+  let (a1, b1, a2, b2) := (q A.a1, q A.b1, q A.a2, q A.b2)
+  let sh (k : Nat) (a b : Float) : XShape2 := .prim (if k = 0 then .cuboid ⟨a, b⟩ else .ball a)
+  -- a ball whose centre is exactly a vertex of the box: the round corner of the configuration-space obstacle is an arc centred at the origin
+  let onCorner : Bool :=
+    if A.k1 != 0 && A.k2 = 0 then (let l := M.invAct ⟨0, 0⟩; rabs l.x == a2 && rabs l.y == b2)
+    else if A.k1 = 0 && A.k2 != 0 then (rabs M.t.x == a1 && rabs M.t.y == b1) else false
+  let pair := s!"{if A.k1 = 0 then "cuboid" else "ball"}/{if A.k2 = 0 then "cuboid" else "ball"}{if A.k1 != 0 && A.k2 != 0 && vmag2 M.t == 0 then "[concentric]" else ""}{if onCorner then "[round-cores-touching]" else ""}"
+  let scale : Rat := 1 + a1 + b1 + a2 + b2 + vmag2 M.t
+  let pts := A.pts.map fun (o1, o2) => (q2 o1).sub (q2 o2)
+  -- the contract of EPA: the start simplex consists of points of the two shapes and contains the origin
+  let inShapes := A.pts.all fun (o1, o2) =>
+    epaOutside A.k1 a1 b1 I (q2 o1) ≤ (1 / 1000000000) * scale && epaOutside A.k2 a2 b2 M (q2 o2) ≤ (1 / 1000000000) * scale
+  if !inShapes then "skip simplex-not-from-the-shapes" else
+  let t9 : Rat := (1 / 1000000000) * scale * scale
+  let originIn : Bool := match pts with
+    | [p] => vmag2 p ≤ (1 / 1000000000) * scale
+    | [p, r] => rabs (p.perp r) ≤ t9 && p.dot r ≤ t9
+    | [p, r, s] =>
+      let (c1, c2, c3) := (p.perp r, r.perp s, s.perp p)
+      (c1 ≥ -t9 && c2 ≥ -t9 && c3 ≥ -t9) || (c1 ≤ t9 && c2 ≤ t9 && c3 ≤ t9)
+    | _ => false
+  if !originIn then "skip origin-not-in-the-simplex" else
+  match geom2 (sh A.k1 A.a1 A.b1) I, geom2 (sh A.k2 A.a2 A.b2) M with
+  | some G1, some G2 =>
+    match sepG2 G1 G2 with
+    | none => "skip no-exact-separation"
+    | some sep =>
+      let pen := -sep
+      match o with
+      | ["none"] =>
+        if pen > (1 / 1000000) * scale then s!"fail none-for-overlapping-shapes pair={pair} dim={A.pts.length - 1} exact-depth={(toF pen)}"
+        else "skip touching"
+      | ["degenerate-simplex"] => "skip degenerate-simplex"
+      | _ =>
+      withOut (do let p1 ← pfo; let p1y ← pfo; let p2 ← pfo; let p2y ← pfo; let nx ← pfo; let ny ← pfo
+                  pure ((⟨p1, p1y⟩ : V2 Float), (⟨p2, p2y⟩ : V2 Float), (⟨nx, ny⟩ : V2 Float))) o fun (p1, p2, n) =>
+        let (P1, P2, N) := (q2 p1, q2 p2, q2 n)
+        if A.pts.length = 1 then
+          -- vertex/vertex start: only a direction is produced; it must be a unit vector
+          if !close N.normSq 1 1000 then s!"fail normal-not-unit pair={pair} dim=0" else "pass"
+        else if pen ≤ (1 / 1000000) * scale then "skip touching" else
+        let wt : Rat := (1 / 1000000) * scale
+        let d := (P1.sub P2).dot N
+        let H := epaH A.k1 a1 b1 I N + epaH A.k2 a2 b2 M N.neg
+        let rel : Rat := if A.k1 = 0 && A.k2 = 0 then 0 else (5 / 1000)
+        if !close N.normSq 1 1000 then s!"fail normal-not-unit pair={pair} n2={toF N.normSq}"
+        else if epaOutside A.k1 a1 b1 I P1 > wt then s!"fail witness1-not-on-its-shape pair={pair} dim={A.pts.length - 1} off={toF (epaOutside A.k1 a1 b1 I P1)}"
+        else if epaOutside A.k2 a2 b2 M P2 > wt then s!"fail witness2-not-on-its-shape pair={pair} dim={A.pts.length - 1} off={toF (epaOutside A.k2 a2 b2 M P2)}"
+        else if d > H + wt then s!"fail depth-exceeds-the-overlap-along-the-normal pair={pair} depth={toF d} overlap={toF H}"
+        else if rabs (d - pen) > wt + rel * pen then
+          s!"fail depth-is-not-the-minimum-translation pair={pair} dim={A.pts.length - 1} depth={toF d} exact={toF pen} overlap-along-normal={toF H}"
+        else "pass"
+  | _, _ => "skip no-exact-geometry"
+
+def fEpa2 : Epa2Result Float → String
+  | .panic => "panic"
+  | .fuel => "fuel"
+  | .none => "none"
+  | .some p1 p2 n _ => s!"{fv2 p1} {fv2 p2} {fv2 n}"
+
+
+/-! ## `epa3` — the 3-D EPA run on the start simplex of the library's own GJK -/
+
+structure Epa3Args where
+  k1 : Nat
+  h1 : V3 Float
+  k2 : Nat
+  h2 : V3 Float
+  pos12 : Iso3 Float
+  pts : List (V3 Float × V3 Float)
+
+def pEpa3 : P Epa3Args := do
+  let k1 ← pnat; let h1 ← pv3; let k2 ← pnat; let h2 ← pv3; let m ← piso3; let n ← pnat
+  let rec go : Nat → P (List (V3 Float × V3 Float))
+    | 0 => pure []
+    | k + 1 => do let o1 ← pv3; let o2 ← pv3; let r ← go k; pure ((o1, o2) :: r)
+  let pts ← go n
+  pure ⟨k1, h1, k2, h2, m, pts⟩
+
+def epa3Supp1 {K} [Num K] (k : Nat) (h : V3 K) (d : V3 K) : V3 K :=
+  if k = 0 then cuboidLocalSupport h d else V3.zero.add ((V3.normalize d).smul h.x)
+def epa3Supp2 {K} [Num K] (k : Nat) (h : V3 K) (m : Iso3 K) (d : V3 K) : V3 K :=
+  if k = 0 then (cuboidSupportMap h).support m d else (ballSupportMap h.x).support m d
+
+/-- exact support value of the posed shape along `n` -/
+def epa3H (k : Nat) (h : V3 Rat) (m : Iso3 Rat) (n : V3 Rat) : Rat :=
+  if k = 0 then m.t.dot n + h.x * rabs ((m.rot ⟨1, 0, 0⟩).dot n) + h.y * rabs ((m.rot ⟨0, 1, 0⟩).dot n) + h.z * rabs ((m.rot ⟨0, 0, 1⟩).dot n)
+  else m.t.dot n + h.x * rsqrt n.normSq
+def epa3Outside (k : Nat) (h : V3 Rat) (m : Iso3 Rat) (p : V3 Rat) : Rat :=
+  let l := m.invAct p
+  if k = 0 then rmax 0 (rmax (rabs l.x - h.x) (rmax (rabs l.y - h.y) (rabs l.z - h.z))) else rmax 0 (rsqrt l.normSq - h.x)
+
+def epa3Oracle (A : Epa3Args) (o : List String) : String :=
+  let M := qiso3 A.pos12
+  if !unitQ M then "skip non-unit-rotation" else
+  let I : Iso3 Rat := ⟨0, 0, 0, 1, ⟨0, 0, 0⟩⟩
+  let (h1, h2) := (q3 A.h1, q3 A.h2)
+  let sh (k : Nat) (h : V3 Float) : XShape3 := .prim (if k = 0 then .cuboid h else .ball h.x)
+  -- a ball whose centre lies exactly on an edge / vertex of the box (a rounded edge of the obstacle is centred at the origin)
+  let onB (l h : V3 Rat) : Bool :=
+    rabs l.x ≤ h.x && rabs l.y ≤ h.y && rabs l.z ≤ h.z &&
+    ((if rabs l.x == h.x then 1 else 0) + (if rabs l.y == h.y then 1 else 0) + (if rabs l.z == h.z then 1 else 0) : Nat) ≥ 2
+  let onEdge : Bool :=
+    if A.k1 != 0 && A.k2 = 0 then onB (M.invAct ⟨0, 0, 0⟩) h2
+    else if A.k1 = 0 && A.k2 != 0 then onB M.t h1 else false
+  let pair := s!"{if A.k1 = 0 then "cuboid" else "ball"}/{if A.k2 = 0 then "cuboid" else "ball"}{if A.k1 != 0 && A.k2 != 0 && vmag M.t == 0 then "[concentric]" else ""}{if onEdge then "[round-cores-touching]" else ""}"
+  let scale : Rat := 1 + vmag h1 + vmag h2 + vmag M.t
+  let inShapes := A.pts.all fun (o1, o2) =>
+    epa3Outside A.k1 h1 I (q3 o1) ≤ (1 / 1000000000) * scale && epa3Outside A.k2 h2 M (q3 o2) ≤ (1 / 1000000000) * scale
+  if !inShapes then "skip simplex-not-from-the-shapes" else
+  match geom3 (sh A.k1 A.h1) I, geom3 (sh A.k2 A.h2) M with
+  | some G1, some G2 =>
+    match sepG3 G1 G2 with
+    | none => "skip no-exact-separation"
+    | some sep =>
+      let pen := -sep
+      let dim := A.pts.length - 1
+      match o with
+      | ["none"] =>
+        if pen > (1 / 1000000) * scale then s!"fail none-for-overlapping-shapes pair={pair} dim={dim} exact-depth={(toF pen)}"
+        else "skip touching"
+      | ["degenerate-simplex"] => "skip degenerate-simplex"
+      | _ =>
+      withOut (do let p1 ← pov3; let p2 ← pov3; let n ← pov3; pure (p1, p2, n)) o fun (p1, p2, n) =>
+        let (P1, P2, N) := (q3 p1, q3 p2, q3 n)
+        if dim = 0 then (if !close N.normSq 1 1000 then s!"fail normal-not-unit pair={pair} dim=0" else "pass")
+        else if pen ≤ (1 / 1000000) * scale then "skip touching" else
+        let wt : Rat := (1 / 1000000) * scale
+        let d := (P1.sub P2).dot N
+        let H := epa3H A.k1 h1 I N + epa3H A.k2 h2 M N.neg
+        let rel : Rat := if A.k1 = 0 && A.k2 = 0 then 0 else (2 / 100)
+        if N.normSq == 0 && d == 0 then s!"fail null-contact pair={pair} dim={dim}"
+        else if !close N.normSq 1 1000 then s!"fail normal-not-unit pair={pair} n2={toF N.normSq}"
+        else if epa3Outside A.k1 h1 I P1 > wt then s!"fail witness1-not-on-its-shape pair={pair} dim={dim} off={toF (epa3Outside A.k1 h1 I P1)}"
+        else if epa3Outside A.k2 h2 M P2 > wt then s!"fail witness2-not-on-its-shape pair={pair} dim={dim} off={toF (epa3Outside A.k2 h2 M P2)}"
+        else if d > H + wt then s!"fail depth-exceeds-the-overlap-along-the-normal pair={pair} depth={toF d} overlap={toF H}"
+        else if H - d > wt + rel * pen then s!"fail witnesses-short-of-the-overlap-along-the-normal pair={pair} dim={dim} depth={toF d} overlap={toF H} exact={toF pen}"
+        else if H > pen + wt + rel * pen then s!"fail normal-is-not-a-minimising-direction pair={pair} dim={dim} overlap-along-normal={toF H} exact={toF pen}"
+        else "pass"
+  | _, _ => "skip no-exact-geometry"
+
+def fEpa3 : Epa3Result Float → String
+  | .panic => "panic"
+  | .fuel => "fuel"
+  | .none => "none"
+  | .some p1 p2 n _ => s!"{fv3 p1} {fv3 p2} {fv3 n}"
+
 
 def handlerCore (fn : String) : Option Handler :=
   match fn with
@@ -474,6 +664,76 @@ def handlerCore (fn : String) : Option Handler :=
                 else s!"fail depth-is-not-the-minimum-translation dist={d} exact={sep.toF}"
               | none => "skip no-exact-separation")
             | _, _ => "skip no-exact-geometry"
+        | none => "skip bad-args" }
+  | "epa2" => some {
+      model := fun a => run (do
+        let A ← pEpa2
+        let pts := A.pts.map fun (o1, o2) => CSOPoint2.new o1 o2
+        pure (fEpa2 (epa2ClosestPoints (epaSupp1 A.k1 A.a1 A.b1) (epaSupp2 A.k2 A.a2 A.b2 A.pos12) 128 pts))) a
+      oracle := fun a o => match run pEpa2 a with
+        | some A => epa2Oracle A o
+        | none => "skip bad-args" }
+  | "epa2c" => some {
+      model := fun a => run (do
+        let A ← pEpa2
+        let pts := A.pts.map fun (o1, o2) => CSOPoint2.new o1 o2
+        pure (match contactFromEpa2 A.pos12 (epaSupp1 A.k1 A.a1 A.b1) (epaSupp2 A.k2 A.a2 A.b2 A.pos12) 128 pts with
+          | some (some c) => s!"some {fv2 c.point1} {fv2 c.point2} {fv2 c.normal1} {fv2 c.normal2} {ff c.dist}"
+          | some none => "none"
+          | none => "panic")) a
+      oracle := fun a o => match run pEpa2 a with
+        | some A =>
+          (match o with
+          | ["none"] => epa2Oracle A o
+          | "some" :: rest =>
+            withOut (do let p1 ← pov2; let p2 ← pov2; let n1 ← pov2; let n2 ← pov2; let d ← pfo; pure (p1, p2, n1, n2, d)) rest
+              fun (p1, p2, n1, n2, d) =>
+                let M := qiso2 A.pos12
+                let (P1, P2, N1, N2, D) := (q2 p1, q2 p2, q2 n1, q2 n2, q d)
+                let scale : Rat := 1 + q A.a1 + q A.b1 + q A.a2 + q A.b2 + vmag2 M.t
+                let P2w := M.act P2
+                let t9 : Rat := (1 / 1000000000) * scale
+                if A.pts.length = 1 then epa2Oracle A [ff p1.x, ff p1.y, ff (A.pos12.act p2).x, ff (A.pos12.act p2).y, ff n1.x, ff n1.y]
+                else if vmag2 ((M.rot N2).add N1) > t9 then "fail normal2-is-not-minus-normal1-in-the-frame-of-shape-1"
+                else if rabs (D - (P2w.sub P1).dot N1) > t9 then "fail dist-is-not-(p2-p1).n1"
+                else epa2Oracle A [ff p1.x, ff p1.y, ff (A.pos12.act p2).x, ff (A.pos12.act p2).y, ff n1.x, ff n1.y]
+          | _ => "fail unparsable-output")
+        | none => "skip bad-args" }
+  | "epa3" => some {
+      model := fun a => run (do
+        let A ← pEpa3
+        let pts := A.pts.map fun (o1, o2) => CSOPoint3.new o1 o2
+        pure (fEpa3 (epa3ClosestPoints (epa3Supp1 A.k1 A.h1) (epa3Supp2 A.k2 A.h2 A.pos12) 4096 pts))) a
+      oracle := fun a o => match run pEpa3 a with
+        | some A => epa3Oracle A o
+        | none => "skip bad-args" }
+  | "epa3c" => some {
+      model := fun a => run (do
+        let A ← pEpa3
+        let pts := A.pts.map fun (o1, o2) => CSOPoint3.new o1 o2
+        pure (match contactFromEpa3 A.pos12 (epa3Supp1 A.k1 A.h1) (epa3Supp2 A.k2 A.h2 A.pos12) 4096 pts with
+          | some (some c) => s!"some {fv3 c.point1} {fv3 c.point2} {fv3 c.normal1} {fv3 c.normal2} {ff c.dist}"
+          | some none => "none"
+          | none => "panic")) a
+      oracle := fun a o => match run pEpa3 a with
+        | some A =>
+          (match o with
+          | ["none"] => epa3Oracle A o
+          | "some" :: rest =>
+            withOut (do let p1 ← pov3; let p2 ← pov3; let n1 ← pov3; let n2 ← pov3; let d ← pfo; pure (p1, p2, n1, n2, d)) rest
+              fun (p1, p2, n1, n2, d) =>
+                let M := qiso3 A.pos12
+                let (P1, P2, N1, N2, D) := (q3 p1, q3 p2, q3 n1, q3 n2, q d)
+                let scale : Rat := 1 + vmag (q3 A.h1) + vmag (q3 A.h2) + vmag M.t
+                let P2w := M.act P2
+                let t9 : Rat := (1 / 1000000000) * scale
+                let p2w := A.pos12.act p2
+                let inner := epa3Oracle A [ff p1.x, ff p1.y, ff p1.z, ff p2w.x, ff p2w.y, ff p2w.z, ff n1.x, ff n1.y, ff n1.z]
+                if A.pts.length = 1 then inner
+                else if vmag ((M.rot N2).add N1) > t9 then "fail normal2-is-not-minus-normal1-in-the-frame-of-shape-1"
+                else if rabs (D - (P2w.sub P1).dot N1) > t9 then "fail dist-is-not-(p2-p1).n1"
+                else inner
+          | _ => "fail unparsable-output")
         | none => "skip bad-args" }
   | _ => none
 
